@@ -20,4 +20,17 @@ if [ -z "${VERIF_SKIP_INERT:-}" ]; then
   fi
   rm -rf "$OV"
 fi
+# the in-memory carrier must behave like grpc-go (compared over bufconn, 14 scripted programs)
+if [ -z "${VERIF_SKIP_CONFORMANCE:-}" ]; then
+  OV=$(mktemp -d .build/conf.XXXXXX)
+  ./bin/instrument -repo /repo -rt "$PWD/rt" -out "$PWD/$OV" >/dev/null
+  (cd harness && go1.26.8 test -c -vet=off -overlay "$OLDPWD/$OV/overlay.json" -o "$OLDPWD/$OV/h.test" .) >/dev/null 2>&1
+  if VERIF_MODE=worker VERIF_CONFORMANCE=1 "$OV/h.test" -test.run '^TestCarrierConformance$' >"$OV/conf.log" 2>&1; then
+    echo "carrier conformance (memconn vs grpc-go over bufconn): ok ($(grep -c '^ok ' "$OV/conf.log") programs)"
+  else
+    echo "WARNING: memconn differs from grpc-go:" >&2
+    grep -A2 MISMATCH "$OV/conf.log" >&2
+  fi
+  rm -rf "$OV"
+fi
 echo "setup ok"
